@@ -1,6 +1,16 @@
 package sim
 
-import "fmt"
+import (
+	"encoding/json"
+	"flag"
+	"fmt"
+	"os"
+	"os/exec"
+	"path/filepath"
+	"strings"
+
+	"github.com/textwire/textwire/v2/simrt"
+)
 
 // ExtraEvidence lets a property add its own keys to the evidence file.
 var ExtraEvidence = map[string]func(*Acc) map[string]any{}
@@ -8,15 +18,195 @@ var ExtraEvidence = map[string]func(*Acc) map[string]any{}
 // SelfTest runs the harness self-tests (see DESIGN §8).
 func SelfTest(args []string) int {
 	if len(args) == 0 {
-		fmt.Println("usage: twsim selftest fsfidelity|reset")
+		fmt.Println("usage: twsim selftest fsfidelity|reset|reset-child ...")
 		return 2
 	}
 	switch args[0] {
 	case "fsfidelity":
 		return selfTestFS(args[1:])
+	case "reset":
+		return selfTestReset(args[1:])
+	case "reset-child":
+		return selfTestResetChild(args[1:])
 	}
 	fmt.Println("unknown selftest", args[0])
 	return 2
 }
 
-func selfTestFS(args []string) int { return 0 }
+// ---- reset: "first op in a fresh OS process" == "first op after ResetAll" --------
+
+func resetScenario(seed uint64, run int) (*Scenario, []Op) {
+	r := NewRng(Mix(seed, "selftest-reset", run))
+	sc, _, alpha := genC16Tree(r)
+	return sc, alpha
+}
+
+func selfTestResetChild(args []string) int {
+	fs := flag.NewFlagSet("reset-child", flag.ExitOnError)
+	seed := fs.Uint64("seed", 1, "")
+	run := fs.Int("run", 0, "")
+	dirty := fs.Bool("dirty", false, "")
+	fs.Parse(args)
+	sc, alpha := resetScenario(*seed, *run)
+	if *dirty {
+		// do unrelated things first: another tree, other registrations, failing renders, string evaluations
+		other, _, oalpha := genC16Tree(NewRng(Mix(*seed, "selftest-dirty", *run)))
+		if w, ok := setupWorld(other); ok {
+			for _, op := range oalpha {
+				w.RunOp(op, Budget)
+			}
+			w.RunOp(Op{Kind: "register", Recv: "int", Name: "extra", Fn: 1}, Budget)
+			w.RunOp(Op{Kind: "newtemplate", Cfg: &Cfg{Dir: "elsewhere//", Ext: ".x", ErrPage: "e", Debug: true}}, Budget)
+		}
+	}
+	var keys []string
+	for _, op := range alpha {
+		w, ok := setupWorld(sc) // includes ResetAll
+		if !ok {
+			keys = append(keys, "setup-failed")
+			continue
+		}
+		keys = append(keys, w.RunOp(op, Budget).Key())
+	}
+	b, _ := json.Marshal(keys)
+	fmt.Println(string(b))
+	return 0
+}
+
+func selfTestReset(args []string) int {
+	fs := flag.NewFlagSet("reset", flag.ExitOnError)
+	n := fs.Int("n", 12, "")
+	seed := fs.Uint64("seed", 1, "")
+	fs.Parse(args)
+	self, _ := os.Executable()
+	bad := 0
+	total := 0
+	for i := 0; i < *n; i++ {
+		a, err1 := exec.Command(self, "selftest", "reset-child", "-seed", fmt.Sprint(*seed), "-run", fmt.Sprint(i)).Output()
+		b, err2 := exec.Command(self, "selftest", "reset-child", "-seed", fmt.Sprint(*seed), "-run", fmt.Sprint(i), "-dirty").Output()
+		if err1 != nil || err2 != nil {
+			fmt.Println("selftest reset: child failed:", err1, err2)
+			return 2
+		}
+		var ka, kb []string
+		json.Unmarshal(a, &ka)
+		json.Unmarshal(b, &kb)
+		if len(ka) == 0 || len(ka) != len(kb) {
+			fmt.Println("selftest reset: children disagree on the number of operations")
+			return 2
+		}
+		for j := range ka {
+			total++
+			if ka[j] != kb[j] {
+				bad++
+				fmt.Printf("selftest reset: run %d op %d differs:\n  fresh process: %s\n  after reset:   %s\n", i, j, ka[j], kb[j])
+			}
+		}
+	}
+	fmt.Printf("selftest reset: %d operations compared between a fresh OS process and a dirty process after simrt.ResetAll(): %d differences; reset covers %d registered initialisers\n", total, bad, len(simrt.ResetPackages()))
+	if bad > 0 {
+		return 2
+	}
+	return 0
+}
+
+// ---- fsfidelity: the simulated disk against the real one ---------------------------
+
+func selfTestFS(args []string) int {
+	fs := flag.NewFlagSet("fsfidelity", flag.ExitOnError)
+	n := fs.Int("n", 10, "")
+	seed := fs.Uint64("seed", 1, "")
+	dir := fs.String("dir", "", "scratch directory on the real disk")
+	fs.Parse(args)
+	if *dir == "" {
+		fmt.Println("selftest fsfidelity: -dir required")
+		return 2
+	}
+	root, _ := filepath.Abs(*dir)
+	cases, diffs := 0, 0
+	for i := 0; i < *n; i++ {
+		r := NewRng(Mix(*seed, "selftest-fs", i))
+		t := GenTree(r, TreeOpts{Pages: 2, Depth: 1})
+		base := t.Clean()
+		type cs struct {
+			idx   int
+			fault string
+			arg   int
+		}
+		var list []cs
+		list = append(list, cs{-1, "none", 0})
+		for fi := range base {
+			for _, f := range []string{"deleted", "dir", "dangling", "garbage"} {
+				list = append(list, cs{fi, f, r.Intn(3)})
+			}
+			if len(base[fi].Data) > 2 {
+				list = append(list, cs{fi, "truncate", 1 + r.Intn(len(base[fi].Data)-1)})
+			}
+		}
+		// registry-style oddities as well
+		for ci, c := range list {
+			files := base
+			if c.idx >= 0 {
+				files, _ = applyStaticFault(base, c.idx, c.fault, c.arg)
+			}
+			ops := []Op{t.LoadOp()}
+			for _, p := range t.Pages {
+				ops = append(ops, Op{Kind: "string", Name: p, Data: t.Data})
+			}
+			ops = append(ops, Op{Kind: "evalfile", Name: t.path(t.Pages[0]), Data: t.Data}, Op{Kind: "evalfile", Name: t.path("nope"), Data: nil})
+			// simulated
+			var simObs []string
+			w := NewWorld(t.Cwd, files)
+			pinSeams()
+			for _, op := range ops {
+				simObs = append(simObs, w.RunOp(op, Budget).Key())
+			}
+			// real
+			caseRoot := filepath.Join(root, fmt.Sprintf("c%d_%d", i, ci))
+			for _, f := range files {
+				p := filepath.Join(caseRoot, f.Path)
+				os.MkdirAll(filepath.Dir(p), 0o755)
+				switch f.Kind {
+				case "dir":
+					os.MkdirAll(p, 0o755)
+				case "link":
+					os.Symlink(f.Target, p)
+				default:
+					os.WriteFile(p, []byte(f.Data), 0o644)
+				}
+			}
+			os.MkdirAll(filepath.Join(caseRoot, t.Cwd), 0o755)
+			if err := os.Chdir(filepath.Join(caseRoot, t.Cwd)); err != nil {
+				fmt.Println("selftest fsfidelity:", err)
+				return 2
+			}
+			simrt.ResetAll()
+			simrt.SetFS(nil)
+			pinSeams()
+			rw := &World{Rec: &Recorder{}}
+			var realObs []string
+			for _, op := range ops {
+				if op.Kind == "evalfile" {
+					op.Name = filepath.Join(caseRoot, op.Name)
+				}
+				k := rw.RunOp(op, Budget).Key()
+				realObs = append(realObs, strings.ReplaceAll(k, caseRoot, ""))
+			}
+			os.Chdir(root)
+			os.RemoveAll(caseRoot)
+			cases++
+			for j := range simObs {
+				if simObs[j] != realObs[j] {
+					diffs++
+					fmt.Printf("selftest fsfidelity: tree %d case %d (%s on file %d) op %s:\n  simulated disk: %s\n  real disk:      %s\n", i, ci, c.fault, c.idx, ops[j], simObs[j], realObs[j])
+					break
+				}
+			}
+		}
+	}
+	fmt.Printf("selftest fsfidelity: %d (tree, fault) cases loaded and rendered on the simulated and on the real disk: %d differences\n", cases, diffs)
+	if diffs > 0 {
+		return 2
+	}
+	return 0
+}
